@@ -449,7 +449,7 @@ const uArith = uAdd | uLrot | uRshift | uPack // no 65536-entry table
 
 func logicMasks() []int {
 	if ev.Tier() == "thorough" {
-		return []int{uXor | uChain, uAnd, uOr, uXor | uAnd | uOr | uChain | uAdd}
+		return []int{uXor | uChain, uAnd, uOr, uXor | uChain | uAdd | uLrot | uRshift}
 	}
 	return []int{uXor | uChain, uAnd, uOr}
 }
